@@ -4,8 +4,9 @@ domain : programs of nested / sequenced with-blocks (with and without Else,
          `with a, b:` and the else-if form `with Else, c as Else:`) whose
          conditions are trees over atoms - comparisons of all six operators on
          registers, variables of all formats and constants (mixed widths and
-         signedness), truthiness, `expr & mask`, single- and multi-bit field
-         variables, `~` - combined with & | ~; interleaved with assignments;
+         signedness), 64 bit integers against decimal constants (fixed point),
+         truthiness, `expr & mask`, single- and multi-bit field variables,
+         `~` - combined with & | ~; interleaved with assignments;
          8 input vectors with correlated values so atoms go both ways.
 oracle : reference interpretation of the same block tree over exact values;
          the set of executed markers (one per body, one after the construct)
@@ -77,6 +78,9 @@ def case_strategy(draw, depth=3):
     ints = [["var", d["name"]] for d in decls if isinstance(d["fmt"], str)] \
         + [["reg", r["view"], r["no"]] for r in regs]
     bits = [d for d in decls if not isinstance(d["fmt"], str)]
+    wide = [["var", d["name"]] for d in decls if d["fmt"] in ("q", "Q")] \
+        + [["reg", r["view"], r["no"]] for r in regs
+           if r["view"] in ("r", "sr")]
     if not ints:
         decls.append({"name": "vx", "kind": "local", "fmt": "I"})
         ints = [["var", "vx"]]
@@ -117,6 +121,17 @@ def case_strategy(draw, depth=3):
             return ["mask", leaf(), draw(st.sampled_from(
                 [1, 2, 4, 0x80, 0xff, 0x100, 0x8000, 0xf0f0, 0x80000000,
                  0x7fffffff]) | st.integers(1, 2**31 - 1))]
+        if k == 9 and wide:
+            # an integer against a decimal constant (per-100000 fixed point):
+            # n <op> d/100000, both ways round
+            base = draw(st.sampled_from(
+                [0, 1, -1, 3, 127, 128, 255, 256, 32767, 65535, 2**31 - 1,
+                 2**31, -2**31, -128]))
+            frac = draw(st.sampled_from([0, 50000, -50000, 1, -1, 99999,
+                                         29000]))
+            return ["fcmp", draw(st.sampled_from(list(CMPS))),
+                    draw(st.sampled_from(wide)), base * 100000 + frac,
+                    draw(st.integers(0, 1))]
         if bits:
             return ["bit", draw(st.sampled_from(bits))["name"]]
         return ["truth", leaf()]
@@ -269,6 +284,14 @@ def eval_cond(c, env, fmts, info):
         if (a < 0 and c01.has_and(c[2])) or (b < 0 and c01.has_and(c[3])):
             info["facts"].add("negative-through-and")
         return CMPS[c[1]](a, b)
+    if k == "fcmp":
+        a, sa, fa = eval_atom_side(c[2], env, fmts, 64)
+        scaled = a * 100000
+        if not -(1 << 63) <= scaled < (1 << 63):
+            raise Unjudged("integer times 100000 does not fit 64 bit")
+        info["facts"].add("integer-vs-decimal")
+        return CMPS[c[1]](scaled, c[3]) if c[4] == 0 \
+            else CMPS[c[1]](c[3], scaled)
     if k in ("truth", "mask"):
         W = width_of([c[1]], fmts)
         a, sa, fa = eval_atom_side(c[1], env, fmts, W)
@@ -345,6 +368,10 @@ def as_comparison(c, e):
     k = c[0]
     if k == "cmp":
         return CMPS[c[1]](c01.to_dsl(c[2], e), c01.to_dsl(c[3], e))
+    if k == "fcmp":
+        if c[4] == 0:
+            return CMPS[c[1]](c01.to_dsl(c[2], e), c[3] / 100000)
+        return CMPS[c[1]](c[3] / 100000, c01.to_dsl(c[2], e))
     if k == "truth":
         return c01.to_dsl(c[1], e) != 0
     if k == "mask":
@@ -405,6 +432,8 @@ def cshape(c):
         return f"({c01.shape(c[2])}{c[1]}{c01.shape(c[3])})"
     if k in ("truth", "mask"):
         return f"{k}({c01.shape(c[1])})"
+    if k == "fcmp":
+        return f"(f{c[4]}{c01.shape(c[2])}{c[1]}dec)"
     if k == "bit":
         return "bit"
     if k == "not":
@@ -578,6 +607,9 @@ def rcond(c):
     k = c[0]
     if k == "cmp":
         return f"({c01.render_node(c[2])} {c[1]} {c01.render_node(c[3])})"
+    if k == "fcmp":
+        a, b = c01.render_node(c[2]), repr(c[3] / 100000)
+        return f"({a} {c[1]} {b})" if c[4] == 0 else f"({b} {c[1]} {a})"
     if k == "truth":
         return c01.render_node(c[1])
     if k == "mask":
